@@ -299,6 +299,7 @@ class LevyCopulaModel(Model):
     @lru_cache(maxsize=2**10)
     def marginal_tail_integral(self, i: int, x: float) -> float:
         """Tail integral of the i-th marginal"""
+        x = float(x)  # `sign` is only registered for float: an int end point would be iterated over
         return sign(x) * self._marginal_levy_measure[i].integrate(*interval_I(x))
 
     def margin_tail_integral(self, indices: list[int], x: Iterator[int]):
